@@ -114,6 +114,15 @@ def replaceAllF (pat rep : Text) : Nat → Text → Text
 def replaceAll (pat rep : Text) (s : Text) : Text :=
   if pat.isEmpty then s else replaceAllF pat rep s.length s
 
+/-- `v.replace("'", "''")` -/
+def escapeQ (s : Text) : Text := s.flatMap (fun c => if c = '\'' then ['\'', '\''] else [c])
+
+/-- `value[1:-1].replace("''", "'")` (after the slicing) -/
+def unescapeQ : Text → Text
+  | [] => []
+  | [c] => [c]
+  | c :: d :: rest => if c = '\'' ∧ d = '\'' then '\'' :: unescapeQ rest else c :: unescapeQ (d :: rest)
+
 /-- `s.strip(chars)` -/
 def stripChars (p : Char → Bool) (s : Text) : Text :=
   ((s.dropWhile p).reverse.dropWhile p).reverse
